@@ -425,6 +425,9 @@ pub fn run(ctx: &mut Ctx) {
         "A step.\n\n> A paragraph with @ and # and ~ in it.\n\n= A section = with @ stray\n\nLast @salt{}.", "tab\there @a{1}\tthere", "a  b   c @a{} d",
         // text values with more than one dash (dates, codes) are no `a-b` range; recipe references are core syntax
         "Open the @wine{2015-10-03} and add @eggs{1-2-3}.", "Use #tin{20-25-cm} and @x{1 - 2 - handfuls} or @y{1/2-1-2%kg}.",
+        // below a front matter a `>>` line is ordinary step text, also when it sits between the lines of a step
+        "---\ntitle: Pancakes\n---\n\nMix the @flour{200%g} with the @milk{300%ml}\n>> tip: sift the flour first\nand whisk until smooth.\n\nFry in a #pan{} for ~{2%min}.\n",
+        "---\ntitle: x\n---\nStep one\n>> not metadata\n>>\nstill step one @a{1}.\n\n>> alone: here\n\nLast.\n",
         // a locked text value with blanks after the `=`; a brace-less component directly followed by `|word`
         "Season with @salt{= to taste} and @pepper{=  a pinch} or @x{=[- c -] some}.",
         "Deglaze with @wine|vino and scrape the #pan|sarten well, then @salt| x and @oil|.",
